@@ -80,12 +80,18 @@ type ref struct {
 	nonceCtr      uint32
 	issued        map[uint32]key
 	dnlLife       time.Duration // configured lifetime of dead-nonce records
+	// seenPair: every (name, nonce) that arrived in an Interest so far. The dead nonce list is
+	// believed ("recorded as dead") only for pairs that arrived before: a nonce can have been
+	// recorded as dead for a name only after an Interest with that name carried it.
+	seenPair map[string]bool
 }
+
+func pairKey(name string, nonce uint32) string { return fmt.Sprintf("%s|%x", name, nonce) }
 
 func newRef(cfg fwsim.Config) *ref {
 	r := &ref{ents: map[key]*ent{}, fib: map[string]map[uint64]uint64{}, strat: map[string]string{}, cacheOn: cfg.CsAdmit && cfg.CsServe,
 		cache: map[string]bool{}, lastNonce: map[string]uint32{}, deadSince: map[string]time.Time{}, issued: map[uint32]key{},
-		prevNonce: map[string]uint32{}, deadSincePrev: map[string]time.Time{}}
+		prevNonce: map[string]uint32{}, deadSincePrev: map[string]time.Time{}, seenPair: map[string]bool{}}
 	r.dnlLife = cfg.DnlLifetime
 	if r.dnlLife == 0 {
 		r.dnlLife = 6 * time.Second // as shipped (fwsim default)
@@ -275,6 +281,17 @@ func (r *ref) onInterest(in *inst, o *iOp, nonce uint32, hasNonce, dead bool, be
 	}
 	ctx := fmt.Sprintf("Interest %s nonce=%v/%s hl=%d hint=%q nh=%q arriving on %s (%s path); reference: pending %s, FIB %s; sent %s",
 		o.name, hasNonce, o.nonce, o.hl, o.hint, o.nh, faceLabel[o.face], path, r.entStr(k, now), r.fibStr(), sendsStr(is))
+	if hasNonce {
+		pk := pairKey(o.name, nonce)
+		if dead && !r.seenPair[pk] {
+			// no Interest with this name ever carried this nonce: it cannot have been recorded as
+			// dead for this name, so the Interest is judged like any other
+			stats["dead nonce list claims a (name, nonce) that never arrived before (not believed)"]++
+			dead = false
+			ctx += "; the dead nonce list holds this (name, nonce) although no Interest with this name carried this nonce before"
+		}
+		r.seenPair[pk] = true
+	}
 
 	// hop limit in the sent wire = received - 1
 	for _, s := range is {
